@@ -156,7 +156,11 @@ func TestC09(t *testing.T) {
 		rec.Rapid(t, "generated", evid.Pick(100000, 1500000), func(t *rapid.T) {
 			var p refchess.Pos
 			label := ""
-			switch gen.Draw(t, 0, 7, "family") {
+			switch gen.Draw(t, 0, 9, "family") {
+			case 8, 9:
+				if q, ok := gen.EPOnlyMotif(t); ok {
+					p, label = q, "ep_only"
+				}
 			case 6, 7:
 				if q, ok := gen.BlockMotif(t); ok {
 					p, label = q, "block"
